@@ -1,4 +1,7 @@
 ------------------------------ MODULE MC_CredLT ------------------------------
-EXTENDS CredLT
+EXTENDS CredLT, Json
+CONSTANT SimDepth
+ExportSchedules == (SimDepth > 0 /\ Len(hist) = SimDepth) => PrintT("SCHED " \o ToJson(hist))
+ltview == <<cs, pend, nsent, nrecv, nonceCtr, mm, bad>>
 MCAlgLists == {<<1>>, <<2>>, <<1, 2>>, <<7>>, <<9, 1>>}
 =============================================================================
